@@ -34,6 +34,7 @@ func runC13(c *core.Ctx) {
 	ruleCMapBounded(c)
 	ruleRangeIndexStep(c)
 	ruleIncrementBase(c)
+	ruleRectangularRanges(c)
 }
 
 func runC14(c *core.Ctx) {
@@ -754,5 +755,99 @@ func ruleFontSelectionIdentity(c *core.Ctx) {
 			}
 		}
 		o.Require(n >= 1, "no comparison of the font instance guards the shortcut")
+	})
+}
+
+// ruleRectangularRanges (C13-R10): a CMap range <first> <last> is a
+// rectangle: byte i of a code runs from first[i] to last[i].  Lookup
+// (rangeIndex), enumeration (codesInRange) and validity (rangeIsValid) must
+// share that reading, otherwise enumeration lists codes that lookup reports
+// unmapped.  rangeIsValid decides per byte position (a lexicographic
+// comparison of the two byte strings accepts <00F0>..<010F>, which is empty
+// as a rectangle); and rangeIndex, whose result is capped at MaxInt32
+// because it is an index, is not used as a pure membership test (notdef
+// ranges have no index and may span the whole 4-byte code space).
+func ruleRectangularRanges(c *core.Ctx) {
+	c.Check("C13-R10", cmapPkg+".rangeIsValid/per-byte", "a range is valid iff first[i] <= last[i] in every byte position: the function rejects on a per-position comparison inside a loop over the positions and uses no lexicographic comparison", func(o *core.Ob) {
+		fn := c.Prog.Func(cmapPkg, "rangeIsValid")
+		g := fn.Graph()
+		info := fn.Info()
+		o.At(fn.Site(fn.Decl, ""))
+		params := fn.Decl.Type.Params.List
+		if len(params) < 1 || len(params[0].Names) != 2 {
+			core.Undecided("rangeIsValid(first, last) signature changed")
+		}
+		first, last := info.Defs[params[0].Names[0]], info.Defs[params[0].Names[1]]
+		for _, call := range core.CallsTo(info, fn.Decl.Body, false, "bytes.Compare", "bytes.Equal", "slices.Compare") {
+			o.Count(1)
+			o.FailAt(fn.Site(call, ""), "%s: %s compares the two ends as byte strings; a range is a rectangle and has to be checked position by position", c.Prog.Pos(call.Pos()), c.Prog.Src(call))
+		}
+		found := false
+		for _, bv := range g.BranchVertices() {
+			if bv.Cond.Expr == nil || !g.InLoop(bv) {
+				continue
+			}
+			for _, l := range []core.EdgeLabel{core.EdgeTrue, core.EdgeFalse} {
+				for _, a := range bv.Implied(l) {
+					cmp, ok := a.AsCmp()
+					if !ok {
+						continue
+					}
+					lx, lok := ast.Unparen(cmp.L).(*ast.IndexExpr)
+					rx, rok := ast.Unparen(cmp.R).(*ast.IndexExpr)
+					if !lok || !rok || !core.SameExpr(info, lx.Index, rx.Index) {
+						continue
+					}
+					lo, ro := core.ObjOf(info, lx.X), core.ObjOf(info, rx.X)
+					gt := (lo == first && ro == last && cmp.Op == token.GTR) || (lo == last && ro == first && cmp.Op == token.LSS)
+					if !gt {
+						continue
+					}
+					// on this edge the function returns false
+					for v := range g.ReachFrom(succ(bv, l), true, core.AvoidVs(bv)) {
+						if rs, ok := v.AST.(*ast.ReturnStmt); ok && len(rs.Results) == 1 {
+							if cv := core.ConstOf(info, rs.Results[0]); cv != nil && cv.String() == "false" && g.EdgeDominates(v, core.EdgeRef{From: bv, Label: l}) {
+								found = true
+							}
+						}
+					}
+				}
+			}
+		}
+		o.Count(1)
+		o.Require(found, "no per-position test first[i] > last[i] that rejects the range was found")
+	})
+	c.Check("C13-R10", cmapPkg+".rangeIndex/callers", "every caller of rangeIndex uses the index it returns (the function caps the position at MaxInt32 and must not serve as a membership test for ranges that have no index)", func(o *core.Ob) {
+		pkg := c.Prog.Pkg(cmapPkg)
+		n := 0
+		for _, fn := range c.Prog.Funcs(pkg) {
+			info := fn.Info()
+			ast.Inspect(fn.Decl.Body, func(m ast.Node) bool {
+				as, ok := m.(*ast.AssignStmt)
+				if !ok || len(as.Rhs) != 1 {
+					if es, isES := m.(*ast.ExprStmt); isES {
+						if call, ok := core.IsCallTo(info, es.X, cmapPkg+".rangeIndex"); ok {
+							o.FailAt(fn.Site(call, ""), "%s: result of rangeIndex dropped", c.Prog.Pos(call.Pos()))
+						}
+					}
+					return true
+				}
+				call, ok := core.IsCallTo(info, as.Rhs[0], cmapPkg+".rangeIndex")
+				if !ok {
+					return true
+				}
+				n++
+				o.Count(1)
+				o.At(fn.Site(call, "position in range"))
+				if len(as.Lhs) != 2 {
+					return true
+				}
+				if id, ok := as.Lhs[0].(*ast.Ident); ok && id.Name == "_" {
+					o.FailAt(fn.Site(call, ""), "%s: %s uses rangeIndex only to test membership: codes whose position exceeds MaxInt32 are reported as outside the range", c.Prog.Pos(call.Pos()), fn.Key)
+				}
+				return true
+			})
+		}
+		o.Require(n >= 2, "expected at least two callers of rangeIndex, found %d", n)
 	})
 }
